@@ -85,6 +85,90 @@ c.setup = _setup
 con.cases.append(c)
 
 
+# ---- (4) unary + / - on compile-time values, (5) dict displays with ** entries: the real branch against CPython itself -----------
+import enum  # noqa: E402
+
+from cohdl._compiler.frontend._value_branch import ObjTraits  # noqa: E402
+
+
+class _Level(enum.IntEnum):
+    LOW = 1
+    HIGH = 2
+
+
+class _Angle(int):
+    def __pos__(self):
+        return _Angle(int(self) % 360)
+
+    def __neg__(self):
+        return _Angle((-int(self)) % 360)
+
+
+def _static(cls, name):
+    r = cls.__dict__[name]
+    return r.__func__ if isinstance(r, (staticmethod, classmethod)) else r
+
+
+NATIVE_TRAITS = [
+    (_static(ObjTraits, "gettype"), lambda it, x: type(x)),
+    (_static(ObjTraits, "hasattr"), lambda it, t, name: hasattr(t, name)),
+    (_static(ObjTraits, "getattr"), lambda it, t, name: getattr(t, name)),
+    (_static(ObjTraits, "get"), lambda it, x: x),
+]
+
+
+def _native_subcall(it, self, fn, args, kwargs, noreturn=None):
+    return SObj(_Expr, f_result=fn(*args, **kwargs), f_bound=[])
+
+
+def same_value(a, b):
+    return type(a) is type(b) and a == b
+
+
+OPERANDS = {"True": True, "False": False, "5": 5, "-3": -3, "2.5": 2.5, "IntEnum": _Level.HIGH, "int-subclass-overriding": _Angle(370)}
+for sym_op, pyop in (("+", lambda x: +x), ("-", lambda x: -x)):
+    for oname, oval in OPERANDS.items():
+        node = ast.parse(f"{sym_op}x", mode="eval").body
+
+        def unary_spec(sx, self, inp, oval=oval, pyop=pyop):
+            want = pyop(oval)
+
+            def holds(res):
+                got = res.fields.get("f_result") if isinstance(res, SObj) and res.kind is _Expr else (res.fields.get("f_value") if isinstance(res, SObj) else None)
+                return same_value(got, want)
+
+            return C.Pred(holds, f"the value and type CPython computes: {want!r}")
+
+        c = Case(f"unary:{sym_op}{oname}", [SELF, Built([], (lambda n: lambda env: n)(node), lambda a: "<unary>", lambda a: None)], unary_spec)
+        c.native = False
+        c.models = NATIVE_TRAITS + [(_Prep.apply, (lambda v: lambda it, self, node: SObj(_Expr, f_result=v, f_bound=[]))(oval)), (_Prep.subcall, _native_subcall)]
+        c.interp_flags = {"class_call_models": {OUT.Value: lambda it, args, kw: SObj(OUT.Value, f_value=args[0], f_bound=args[1])}}
+        con.cases.append(c)
+
+DISPLAYS = ["{'a': 1, **m}", "{**m, 'a': 1}", "{'a': 1, **m, 'a': 3}", "{**m, **n}", "{'w': 8, **n, **m}", "{**m}", "{}", "{'a': 1, 'b': 2, 'a': 3}"]
+DISPLAY_ENV = {"m": {"a": 2, "c": 4}, "n": {"c": 5, "w": 16, "a": 6}}
+for src in DISPLAYS:
+    node = ast.parse(src, mode="eval").body
+
+    def dict_spec(sx, self, inp, src=src):
+        want = eval(src, dict(DISPLAY_ENV))
+
+        def holds(res):
+            got = res.fields.get("f_value") if isinstance(res, SObj) and res.kind is OUT.Value else None
+            return isinstance(got, dict) and list(got.items()) == list(want.items())
+
+        return C.Pred(holds, f"the dict CPython builds, same insertion order: {want!r}")
+
+    def _apply_sub(it, self, n):
+        return SObj(_Expr, f_result=eval(compile(ast.Expression(n), "<display>", "eval"), dict(DISPLAY_ENV)), f_bound=[])
+
+    c = Case(f"dict-display:{src}", [SELF, Built([], (lambda n: lambda env: n)(node), lambda a: "<dict>", lambda a: None)], dict_spec)
+    c.native = False
+    c.models = [(_Prep.apply, _apply_sub)]
+    c.interp_flags = {"class_call_models": {OUT.Value: lambda it, args, kw: SObj(OUT.Value, f_value=args[0], f_bound=args[1])}}
+    con.cases.append(c)
+
+
 # ---- (2) / (3) bounded sweeps against CPython --------------------------------------------------------------------------------
 def _cpython_unpack(n_targets, star, source):
     names = [f"t{i}" for i in range(n_targets)]
@@ -107,6 +191,37 @@ def _real_unpack(n_targets, star, source):
         return None
 
 
+# lambdas whose source the front end has to find again (inspect.getsource gives the whole LINE): one lambda per line,
+# a lambda nested in a lambda, two lambdas on one line.  Where the definition is accepted, executing the body the
+# front end picked must give what the function object itself gives; an ambiguous line may be rejected.
+_single = lambda a, b: a * 10 + b  # noqa: E731
+_offset_from = lambda a: (lambda b: a - b)  # noqa: E731
+_pair = (lambda x: x + 1, lambda x: x + 2)
+_scaled = (lambda k: (lambda x, y=2: x * k + y))(7)
+
+
+def _lambda_cases():
+    return [("single lambda", _single, (3, 4)), ("inner lambda of a nested pair", _offset_from(10), (3,)), ("first of two lambdas on a line", _pair[0], (5,)),
+            ("second of two lambdas on a line", _pair[1], (5,)), ("inner lambda with closure and default", _scaled, (3,))]
+
+
+def _run_definition(fdef, fn, args):
+    """execute the body the front end selected for `fn`, with fn's own globals and closure cells"""
+    import inspect
+
+    params = ast.parse("def f(" + ", ".join(list(fdef._posonly) + list(fdef._args)) + "): pass").body[0].args
+    body = fdef.body()
+    body = list(body) if isinstance(body, (list, tuple)) else [ast.Return(value=body)] if isinstance(body, ast.expr) else [body]
+    mod = ast.Module(body=[ast.FunctionDef(name="__picked", args=params, body=body, decorator_list=[], returns=None, type_comment=None)], type_ignores=[])
+    ast.fix_missing_locations(mod)
+    ns = dict(fn.__globals__)
+    ns.update(inspect.getclosurevars(fn).nonlocals)
+    exec(compile(mod, "<picked definition>", "exec"), ns)
+    kw = {k: v for k, v in (fdef._defaults or {}).items()} if hasattr(fdef, "_defaults") else {}
+    full = list(args) + [kw[p] for p in (list(fdef._posonly) + list(fdef._args))[len(args):] if p in kw]
+    return ns["__picked"](*full)
+
+
 def _env_arrangements():
     """(where the name lives) for one free name: subsets of {cell, global, builtin}"""
     for where in itertools.product((False, True), repeat=3):
@@ -127,6 +242,19 @@ def subset_sweep(tier="quick", seed=0):
                 if want != got:
                     what = "accepts an unpacking CPython rejects" if want is None else "rejects an unpacking CPython accepts" if got is None else "splits differently"
                     fails.setdefault("unpack: " + what, f"{n_targets} targets, star at {star}, source of {length} elements: CPython {want}, _split_target {got}")
+    for label, fn, args in _lambda_cases():
+        n += 1
+        want = fn(*args)
+        try:
+            fdef = CAS.FunctionDefinition.from_callable(fn)
+        except AssertionError:
+            continue  # rejected: allowed
+        try:
+            got = _run_definition(fdef, fn, args)
+        except Exception as e:  # noqa: BLE001
+            got = f"raised {type(e).__name__}: {e}"
+        if callable(got) or got != want:
+            fails.setdefault("lambda source lookup picks another function's body", f"{label}: the function computes {want!r}, the body selected for it gives {got!r}")
     # name resolution: closure cell before module global before builtin
     sb = CAS._ScopeBase.__dict__["_capture_env"]
     for in_cell, in_global, in_builtin in _env_arrangements():
